@@ -61,9 +61,10 @@ def src_file(d, idx, count):
 
 # ------------------------------------------------------------------ stages
 # stage = (beh, form, arg)   beh: src(count) cat head(k) drop(d) read1 sink
-def model_fields(st):
+def model_fields(st, repaired=False):
+    """today: compound/function stages are run inline by the spawn loop; repaired: every stage is spawned"""
     beh, form, arg = st
-    k = "I" if form in INLINE_FORMS else "S"
+    k = "I" if (form in INLINE_FORMS and not repaired) else "S"
     if beh == "src":
         return [k, "0", "0", "1", str(arg)]
     if beh == "cat":
@@ -307,11 +308,12 @@ def status_ok(code_stat, model_runs, nst):
     return all(parts[i + 1] in allowed[i] for i in range(nst)) and parts[0] == parts[-1]
 
 
-def eval_sched(ctx, cases, env=None, tag=""):
+def eval_sched(ctx, cases, env=None, variant=None):
     d = wd()
     use_model = ctx.runner is not None
     if use_model:
         model = ctx.model("c11_sched", [[str(CAP)] + sum((model_fields(s) for s in st), []) for st in cases])
+        model_rep = ctx.model("c11_sched", [[str(CAP)] + sum((model_fields(s, True) for s in st), []) for st in cases])
         mruns = [parse_model(m) for m in model]
         want_hang = [bool(r) and all(x["verdict"] == "stuck" for x in r) for r in mruns]
     else:
@@ -336,8 +338,16 @@ def eval_sched(ctx, cases, env=None, tag=""):
             if all(not a[0]["hung"] for a in again):
                 transient += 1
                 results[k] = again[-1]
+    # which algorithm does the code follow? today's hangs on the known class; a repaired one (every stage
+    # started before any is awaited) completes all of it. The matching model variant predicts the statuses.
+    inclass = [k for k in range(len(cases)) if want_hang[k]]
+    if variant is None:
+        variant = "repaired" if inclass and not any(results[k][0]["hung"] for k in inclass) else "today"
+    if use_model and variant == "repaired":
+        mruns = [parse_model(m) for m in model_rep]
+        model = model_rep
     mism, specv, stale = [], [], 0
-    dist = {"transient_stalls_not_reproduced": transient, "hang_expected": 0, "hang_observed": 0, "bytes_moved": 0, "by_form": {}, "by_beh": {}, "n_stages": {}}
+    dist = {"code_follows": variant, "transient_stalls_not_reproduced": transient, "hang_expected": 0, "hang_observed": 0, "bytes_moved": 0, "by_form": {}, "by_beh": {}, "n_stages": {}}
     bash_dis = 0
     for k, (st, mr, (code, bash)) in enumerate(zip(cases, mruns, results)):
         for s in st:
@@ -356,6 +366,8 @@ def eval_sched(ctx, cases, env=None, tag=""):
             bash_dis += 1
             raise core.CheckBroken("python flow oracle and bash disagree on %r (bash %r)" % (st, bash))
         known = known_inline(st)
+        if known and variant == "repaired":
+            stale += 1
         dist["bytes_moved"] += len(spec_data)
         # ---- code vs spec
         if code["hung"]:
@@ -389,7 +401,8 @@ def eval_sched(ctx, cases, env=None, tag=""):
                 mism.append({"case": info, "model": mr[0]["ranges"], "code": code})
             elif not status_ok(code["stat"], mr, len(st)):
                 mism.append({"case": info, "model": [x["st"] for x in mr], "code": code["stat"]})
-    return {"mism": mism, "specv": specv, "stale": stale, "dist": dist, "mruns": mruns, "model_lines": model}
+    return {"mism": mism, "specv": specv, "stale": stale, "dist": dist, "mruns": mruns, "model_lines": model,
+            "variant": variant, "fields": lambda st: model_fields(st, variant == "repaired")}
 
 
 # ------------------------------------------------------------------ status / strip (in-process)
@@ -612,7 +625,7 @@ def run_(ctx):
             max([s[2] or 0 for s in c if s[0] == "src"] + [0]) <= 2000]
     for pause in PAUSES:
         sub = ctx.rng.sample(live, min(len(live), 14 if ctx.quick else 120))
-        evp = eval_sched(ctx, sub, env={"BRUSH_VERIF_PAUSE": pause})
+        evp = eval_sched(ctx, sub, env={"BRUSH_VERIF_PAUSE": pause}, variant=ev["variant"])
         pv_mism += evp["mism"]
         pv_specv += evp["specv"]
         pv_n += len(sub)
@@ -628,7 +641,7 @@ def run_(ctx):
     xs = 0
     if small:
         pick = ctx.rng.sample(small, min(12, len(small)))
-        mc = [[str(CAP)] + sum((model_fields(s) for s in sched_cases[k]), []) for k in pick]
+        mc = [[str(CAP)] + sum((ev["fields"](s) for s in sched_cases[k]), []) for k in pick]
         ce = ctx.coq_eval("c11_sched", mc)
         if [ev["model_lines"][k] for k in pick] != ce:
             raise core.CheckBroken("extracted runner and vm_compute disagree on c11_sched")
